@@ -61,6 +61,10 @@ OBLIGATIONS = [
     kani("c11_tilt_parser_model", ["C11"], "C11.tilt.parser_model", "hulc::bdl::Wall::position / bemodel::Tilt::from(f32)"),
     kani("c11_orient_sectors", ["C11", "C10"], "C11.orient.sectors", "bemodel::Orientation::from(f32)"),
     kani("c11_normalize_range", ["C11"], "C11.normalize", "bemodel::utils::normalize"),
+    kani("c10_orientation_of_wall", ["C10", "C11"], "C10.wall", "Orientation::from(&Wall) / Tilt::from(&Wall)"),
+    kani("c11_poly_area_triangle", ["C11"], "C11.poly.area", "Polygon::area", bounded="3 vertices, every integer coordinate in [-100,100] (arithmetic exact)", timeout=900),
+    kani("c11_poly_degenerate", ["C11"], "C11.poly.degenerate", "Polygon::area / perimeter", bounded="0 and 1 vertex"),
+    kani("c13_aabb_slab_exact", ["C13"], "C13.aabb.slab.exact", "AABB::intersects", bounded="integer boxes / origins in [-20,20], direction components in {-1,0,1}: all products exact", timeout=900),
     # ---- C06 leaves -----------------------------------------------------------------------------------
     kani("c06_fround2_contract", ["C06", "C07", "C08"], "C06.fround2", "bemodel::utils::fround2 (kani::requires/ensures, proof_for_contract)", timeout=600),
     kani("c06_fround3_contract", ["C06"], "C06.fround3", "bemodel::utils::fround3 (kani::requires/ensures, proof_for_contract)", tier="thorough", timeout=1800),
